@@ -300,3 +300,125 @@ func shiftOverflows(fn *ssa.Function, sizes types.Sizes) (out []shiftOverflow, n
 	})
 	return
 }
+
+// refillAliases finds, in a loop, a slice that is truncated and refilled in place (append onto s[:0]) although another
+// loop-carried variable received that same slice at the end of the previous iteration and is still read in this one:
+// the appends overwrite the elements being read.
+type refillAlias struct {
+	Append ssa.Instruction
+	Read   ssa.Instruction
+	Names  [2]string
+}
+
+func refillAliases(fn *ssa.Function) (out []refillAlias, nLoops int) {
+	for _, lp := range naturalLoops(fn) {
+		var phis []*ssa.Phi
+		for _, in := range lp.Header.Instrs {
+			if phi, ok := in.(*ssa.Phi); ok {
+				if _, isSl := phi.Type().Underlying().(*types.Slice); isSl {
+					phis = append(phis, phi)
+				}
+			} else {
+				break
+			}
+		}
+		if len(phis) < 2 {
+			continue
+		}
+		nLoops++
+		backVal := func(phi *ssa.Phi) ssa.Value {
+			for i, pr := range lp.Header.Preds {
+				if lp.Blocks[pr] {
+					return phi.Edges[i]
+				}
+			}
+			return nil
+		}
+		// base traces a slice value back (through re-slicing, appends and phis inside the loop) to header phis of lp
+		var base func(v ssa.Value, seen map[ssa.Value]bool, viaTrunc bool, acc map[*ssa.Phi]bool)
+		base = func(v ssa.Value, seen map[ssa.Value]bool, viaTrunc bool, acc map[*ssa.Phi]bool) {
+			if v == nil || seen[v] {
+				return
+			}
+			seen[v] = true
+			switch x := v.(type) {
+			case *ssa.Phi:
+				if x.Block() == lp.Header {
+					acc[x] = true
+					return
+				}
+				for _, e := range x.Edges {
+					base(e, seen, viaTrunc, acc)
+				}
+			case *ssa.Slice:
+				base(x.X, seen, viaTrunc, acc)
+			case *ssa.Call:
+				if b, ok := x.Call.Value.(*ssa.Builtin); ok && b.Name() == "append" {
+					base(x.Call.Args[0], seen, viaTrunc, acc)
+				}
+			case *ssa.ChangeType:
+				base(x.X, seen, viaTrunc, acc)
+			}
+		}
+		for b := range lp.Blocks {
+			for _, in := range b.Instrs {
+				call, ok := in.(*ssa.Call)
+				if !ok {
+					continue
+				}
+				bi, ok := call.Call.Value.(*ssa.Builtin)
+				if !ok || bi.Name() != "append" {
+					continue
+				}
+				wr := map[*ssa.Phi]bool{}
+				base(call.Call.Args[0], map[ssa.Value]bool{}, false, wr)
+				for pw := range wr {
+					// another header phi fed by the same value at the back edge
+					for _, pr := range phis {
+						if pr == pw {
+							continue
+						}
+						bw, br := backVal(pw), backVal(pr)
+						if bw == nil || br == nil {
+							continue
+						}
+						same := bw == br
+						if !same {
+							a1, a2 := map[*ssa.Phi]bool{}, map[*ssa.Phi]bool{}
+							_ = a1
+							_ = a2
+						}
+						if !same {
+							continue
+						}
+						// is pr read inside the loop?
+						for b2 := range lp.Blocks {
+							for _, in2 := range b2.Instrs {
+								ia, ok := in2.(*ssa.IndexAddr)
+								if !ok {
+									continue
+								}
+								rd := map[*ssa.Phi]bool{}
+								base(ia.X, map[ssa.Value]bool{}, false, rd)
+								if rd[pr] {
+									out = append(out, refillAlias{call, ia, [2]string{pw.Comment, pr.Comment}})
+								}
+							}
+						}
+					}
+				}
+			}
+		}
+	}
+	// one report per (append, pair)
+	seen := map[string]bool{}
+	var uniq []refillAlias
+	for _, r := range out {
+		k := fmt.Sprintf("%d|%s|%s", r.Append.Pos(), r.Names[0], r.Names[1])
+		if !seen[k] {
+			seen[k] = true
+			uniq = append(uniq, r)
+		}
+	}
+	return uniq, nLoops
+}
